@@ -3,15 +3,15 @@ import vlib
 
 
 def run(ctx):
-    small = vlib.tlc_model_check(ctx, "MCLList", "LList_small.cfg", dump="g", timeout=900)
-    real = vlib.tlc_model_check(ctx, "MCLList", "LList_real.cfg", dump="g", timeout=900)
+    small = vlib.tlc_model_check(ctx, "MCLList", "LList_mid.cfg" if ctx.thorough else "LList_small.cfg", dump="g", timeout=900)
+    real = vlib.tlc_model_check(ctx, "MCLList", "LList_real5.cfg" if ctx.thorough else "LList_real.cfg", dump="g", timeout=1800)
     rep = vlib.go_harness(ctx, "pkg/buffer/linkedlist", "TestVerifLListCover", name="cover-small",
                           env={"VERIF_GRAPH": small["dot"], "VERIF_SCALE": 128}, timeout=900)
     vlib.absorb(ctx, rep, "cover-small")
     rep = vlib.go_harness(ctx, "pkg/buffer/linkedlist", "TestVerifLListCover", name="cover-real",
-                          env={"VERIF_GRAPH": real["dot"], "VERIF_SCALE": 1}, timeout=900)
+                          env={"VERIF_GRAPH": real["dot"], "VERIF_SCALE": 1}, timeout=2400)
     vlib.absorb(ctx, rep, "cover-real")
     ctx.assumptions += ["TLC 1.8.0", "scripted io.Reader/io.Writer alphabet (zero/one/full x nil/EOF/error)",
-                        "scaled configuration: unit 128 bytes, <= 4 segments, <= 12 units; real configuration: byte sizes around 512 to depth 3"]
+                        "scaled configuration: unit 128 bytes, <= 4 segments, <= 12 units; real configuration: byte sizes around 512 to depth 3 (quick) / 5 (thorough; scaled configuration then <= 5 segments, <= 16 units)"]
     return vlib.finish(ctx, "model_checking",
                        "one case = one labelled edge (segment structure, operation, arguments/script) of the TLC state graph of LList.tla replayed on a real linkedlist.Buffer; distinct = distinct (source state, label)")
